@@ -406,6 +406,17 @@ def validate_first_rule(prog, res):
             ins = [c for c in f.calls() if c['callee']['name'] == 'insert' and R.render(f.call_obj(c)) == dimsrc]
             okins = len(ins) == 1 and (dimsrc + '.begin()') in R.render(ins[0]['args'][0]) and R.render(ins[0]['args'][1]).startswith('local:')
             if not okins:
+                # the same list built front to back: push_back(longest), then the validated dimensions appended at the end
+                pbs = [c for c in f.calls() if c['callee']['name'] in ('push_back', 'emplace_back') and f.call_obj(c) is not None and R.render(f.call_obj(c)) == dimsrc]
+                app = [c for c in ins if (dimsrc + '.end()') in R.render(c['args'][0]) and len(c['args']) == 3 and R.render(c['args'][1]) == gdims + '.begin()' and R.render(c['args'][2]) == gdims + '.end()']
+                gq = f.events()
+                if len(pbs) == 1 and len(app) == 1 and R.render(pbs[0]['args'][0]).startswith('local:') and gq.vertex_of.get(app[0]['id']) in gq.reach([gq.vertex_of.get(pbs[0]['id'])]):
+                    okins = True
+            if not okins and (ins or [c for c in f.calls() if f.call_obj(c) is not None and R.render(f.call_obj(c)) == dimsrc and not c['callee'].get('const')]):
+                und_dims = True
+                res.undecided('validate-first', inst + ': stored dimensions', f.loc(), 'the stored dimension list is built in a form the rule does not read (known: insert of the longest length at begin(), or '
+                              'push_back of it followed by an append of the validated dimensions) [shape not read by the rule]', function=f.sig, expr='stores-dims')
+            elif not okins:
                 problems.append('string overload must store the validated dimensions with the longest string length inserted in front')
         if problems:
             res.viol('validate-first', inst, f.loc(), '; '.join(problems), function=f.sig, expr='stores')
@@ -427,7 +438,16 @@ def longest_string_rule(prog, res, rule='validate-first'):
     if len(ins) != 1:
         res.undecided(rule, inst, f.loc(), 'cannot find the insertion of the string length into the dimensions', function=f.sig, expr='longest')
         return
-    v = R.render(ins[0]['args'][1])
+    if len(ins[0]['args']) == 3 and '.end()' in R.render(ins[0]['args'][0]):
+        # built front to back: push_back(length) first, the dimensions appended afterwards
+        tgt = R.render(f.call_obj(ins[0]))
+        pbs = [c for c in f.calls() if c['callee']['name'] in ('push_back', 'emplace_back') and f.call_obj(c) is not None and R.render(f.call_obj(c)) == tgt]
+        if len(pbs) != 1:
+            res.undecided(rule, inst, f.loc(ins[0]['id']), 'cannot find the length that is put in front of the dimensions', function=f.sig, expr='longest')
+            return
+        v = R.render(pbs[0]['args'][0])
+    else:
+        v = R.render(ins[0]['args'][1])
     m = re.match(r'^local:(\w+)$', v)
     if not m:
         res.undecided(rule, inst, f.loc(ins[0]['id']), 'inserted length is %s: computed by something the rule cannot read' % v, function=f.sig, expr='longest')
